@@ -477,7 +477,9 @@ class Text(Input):
             self.pit = np.zeros([Ntimes, Nleadtimes, Nlocations], 'float') * np.nan
         self.threshold_scores = np.zeros([Ntimes, Nleadtimes, Nlocations, Nthresholds], 'float') * np.nan
         self.quantile_scores = np.zeros([Ntimes, Nleadtimes, Nlocations, Nquantiles], 'float') * np.nan
-        self.ensemble = np.zeros([Ntimes, Nleadtimes, Nlocations, Nmembers], 'float') * np.nan
+        self.ensemble = None
+        if Nmembers > 0:
+            self.ensemble = np.zeros([Ntimes, Nleadtimes, Nlocations, Nmembers], 'float') * np.nan
         self._other_scores = dict()
         for field in other.keys():
             self._other_scores[field] = np.zeros([Ntimes, Nleadtimes, Nlocations], 'float') * np.nan
